@@ -13,6 +13,10 @@ import verus_run
 import kani_run
 
 REPO = os.environ.get("VERIF_REPO", "/repo")
+try:
+    ALLOW = json.load(open(os.path.join(os.path.dirname(os.path.dirname(os.path.abspath(__file__))), "contracts", "ASSUMPTIONS.json")))
+except Exception:
+    ALLOW = {}
 
 
 def load_cfg(verif):
@@ -136,6 +140,11 @@ def check_property(verif, pid, tier, cp, keep=False):
                 rule_counts[k] = rule_counts.get(k, 0) + v
             for k, v in r["assumptions"].items():
                 assumptions[f"{r['unit']}: {k}"] = v
+                # assumption scan: a unit may not contain more assume/admit/external_body/... constructs than
+                # the committed allow-list (contracts/ASSUMPTIONS.json, explained in ASSUMPTIONS.md) says
+                allowed = ALLOW.get("verus", {}).get(r["unit"], {}).get(k, 0)
+                if v > allowed:
+                    undecided.append(f"assumption scan: unit {r['unit']} has {v} x `{k}` but the allow-list permits {allowed}")
             if r["status"] == "undecided":
                 undecided.append(f"verus unit {r['unit']}: {r['reason']}")
                 continue
